@@ -12,6 +12,7 @@ can see that everything else is quiet.
 import random, os, json, multiprocessing as mp
 from fractions import Fraction as F
 from ..common import Result, OUT, scratch, run_tlc, Machinery, tlc_error_excerpt, rat, quiet
+from ..common import fork_pool
 from .. import domains as D
 from ..calltrace import judge_calls
 
@@ -458,7 +459,7 @@ def run(tier, seed, replay=None):
                 res.violation("spec:MC_Generators:%s" % r["violated"], "the Huntington-Hill definition violates %s" % r["violated"], {})
         inputs = corpus(tier, seed)
     res.evaluations = len(inputs)
-    with mp.get_context("fork").Pool(16) as pool:
+    with fork_pool(16) as pool:
         traces = list(pool.imap_unordered(call_work, inputs, chunksize=8))
     traces.sort(key=lambda t: json.dumps({k: v for k, v in t.items() if not k.startswith("_")}, sort_keys=True))
     kinds, errs = {}, {}
